@@ -373,7 +373,13 @@ fn gen_ann(rng: &mut Rng, kind: Kind) -> Ann {
         }
         if rng.chance(num, den) {
             let n = if rng.chance(1, 12) { 0 } else { 1 + rng.usize_below(4) };
-            a.authors = Some((0..n).map(|_| hostile_string(rng, false)).collect());
+            let mut names: Vec<String> = (0..n).map(|_| hostile_string(rng, false)).collect();
+            // the comma-joined storage cannot tell [] from [""]: the list consisting of exactly one
+            // empty name is observationally indistinguishable from the empty list and is not generated
+            if names.len() == 1 && names[0].is_empty() {
+                names[0] = "anonymous".to_string();
+            }
+            a.authors = Some(names);
         }
         if rng.chance(num, den) {
             a.created = Some(gen_time(rng));
